@@ -124,6 +124,14 @@ def tokens_for(d, rich=False):
         if rich and len(letters) >= 2:
             t += ["-" + l0 + letters[1] + l0, "-" + l0 + "=" + "x", "-" + l0 + letters[1] + "=x", "-" + l0 + "-" + letters[1]]
     t += ["x", "y", "", "--", "-", "--unknown", "-z", "---x", "-=", "--=x", "-5", "{}", "--{}"]
+    allletters = letters + optletters
+    if any(c in "0123456789.e" for c in allletters):
+        t += ["-" + "".join(p) for p in itertools.permutations([c for c in allletters if c in "0123456789.ex"][:3], 2)]
+        t += ["-1e5", "-0x5", "-.5", "-15"]
+    if all(c in allletters for c in "na"):
+        t += ["-nan", "-na", "-an"]
+    if all(c in allletters for c in "inf"):
+        t += ["-inf", "-fin", "-nif"]
     if letters:
         t += ["-" + letters[0] + "{}"]
     if optletters:
@@ -241,6 +249,11 @@ def spell_valued(name, short, v, rng):
 def random_decl(rng, small=True):
     names = ["a", "b", "ab", "out", "no-a", "x-y", "verbose", "n"]
     letters = ["a", "b", "o", "v", "n", "x"]
+    r0 = rng.random()
+    if r0 < 0.12:
+        letters = ["1", "0", "5", "e", "x", "."]          # digit short names: tokens such as -1, -15, -1e5, -0x5 are bundles, not numbers
+    elif r0 < 0.2:
+        letters = ["n", "a", "i", "f", "t", "y"]          # bundles that spell -nan, -inf, -infinity
     rng.shuffle(names)
     rng.shuffle(letters)
     k_o, k_m, k_t = rng.randint(0, 2), rng.randint(0, 2), rng.randint(0, 3)
@@ -271,7 +284,11 @@ def random_decl(rng, small=True):
         if n is None:
             break
         toggles.append((n, sh(), ev(), rng.choice([0, 0, 1, 2, -1]), rng.random() < 0.5))
-    return Decl(opts, multis, toggles, rng.choice([None, None, 0, 1, 2, 3]), rng.random() < 0.25)
+    return Decl(opts, multis, toggles, rng.choice([None, None, 0, 1, 2, 3, 3, BIG_LIMITS[rng.randrange(len(BIG_LIMITS))]]), rng.random() < 0.25)
+
+
+# finite limits far beyond any vector: 2^32 and neighbours (a narrowing to 32 bits leaves 0, 1, 0), 2^31, 2^63
+BIG_LIMITS = [2**32, 2**32 + 1, 2**40, 2**31, 2**63, 2**32 - 1]
 
 
 def grow_decl(d, rng):
